@@ -206,19 +206,15 @@ impl<T> DataReaderEntity<T> {
                 instances_in_collection.push(InstanceState::new(cache_change.instance_handle));
             }
 
-            let instance_from_collection = instances_in_collection
-                .iter_mut()
-                .find(|x| x.handle() == &cache_change.instance_handle)
-                .expect("Instance must exist");
-            instance_from_collection.update_state(cache_change.kind, None);
             let sample_state = cache_change.sample_state;
             let view_state = instance.view_state;
             let instance_state = instance.instance_state;
 
+            // Generations between the time the sample was received and the most recent state of the instance
             let absolute_generation_rank = (instance.most_recent_disposed_generation_count
                 + instance.most_recent_no_writers_generation_count)
-                - (instance_from_collection.most_recent_disposed_generation_count
-                    + instance_from_collection.most_recent_no_writers_generation_count);
+                - (cache_change.disposed_generation_count
+                    + cache_change.no_writers_generation_count);
 
             let (data, valid_data) = match cache_change.kind {
                 ChangeKind::Alive | ChangeKind::AliveFiltered => {
